@@ -22,11 +22,11 @@ LEVEL = "fault_enumeration"
 RULE = ("cells = parameter (14 registered + 8 algorithm-specific + caller-registered + unknown) x value (one representative of "
         "every JSON type and shape: 15 kinds, plus 'absent') x position (protected / unprotected / per-recipient) x operation "
         "(12 JWS incl. RFC 7797, 6 JWE over A128KW / ECDH-ES / PBES2 / A128GCMKW / ECDH-1PU) x strict on/off x caller registry "
-        "(none / optional int / required int); both tiers enumerate the cell space completely (400 slices); consuming cells "
+        "(none / optional int / required int), plus shadow cells (a mistyped kid / typ / x5c / jku in one position of a JSON serialisation, a well-typed member of the same name in another); both tiers enumerate the cell space completely (400 slices); consuming cells "
         "use tokens minted by the non-conformant authenticated peer; a case = one call judged by header_ok(); distinct = distinct cell")
 ASSUMPTIONS = [
     "model header_ok() from the statement: required parameters present (alg; enc for JWE; on consumption epk / p2s+p2c / iv+tag), registered parameters of the demanded JSON type, every crit name present, b64 accompanied by a crit listing it, no unregistered parameter unless strict is off or the caller registered it, caller-registered parameters type-checked and required ones enforced",
-    "don't-care: crit == [] ; URL parameters holding a string with another scheme; the same name in two header positions (never generated); alg / enc / zip *values* (C05's business)",
+    "don't-care: crit == [] ; URL parameters holding a string with another scheme; the same name in two header positions when both values have the demanded type (RFC 7515 / 7516 section 7.2.1 forbid it, the statement is silent; a mistyped value hidden behind a well-typed one of the same name in another position must be refused - 'shadow' cells); alg / enc / zip *values* (C05's business)",
     "everything else about the call is valid (suitable key, allowed algorithms), so the header is the only reason for refusal",
     "refjose and OpenSSL primitives trusted",
 ]
@@ -52,6 +52,7 @@ JWE_OPS = ["jwe.encrypt_compact", "jwe.encrypt_json.flat", "jwe.encrypt_json.gen
            "jwe.decrypt_json.general"]
 JWE_ALGS = ["A128KW", "ECDH-ES", "PBES2-HS256+A128KW", "A128GCMKW", "ECDH-1PU"]
 CALLER = ["none", "optional-int", "required-int"]
+WELL = {"kid": "k1", "typ": "JOSE", "x5c": ["QUJD"], "jku": "https://a.example/x"}
 
 
 def type_ok(kind: str, v) -> bool | None:
@@ -176,6 +177,8 @@ def execute(node: Node, cell: dict):
             prot.pop("alg")
         elif present:
             tgt[param] = copy.deepcopy(value)
+        if cell.get("shadow"):
+            (prot if cell["shadow"] == "protected" else unprot)[param] = copy.deepcopy(WELL[param])
         if r7797 and param != "b64" and "b64" not in prot:
             prot["b64"] = False
             prot.setdefault("crit", []) if param == "crit" and pos == "protected" and present else None
@@ -255,6 +258,8 @@ def execute(node: Node, cell: dict):
             for d in (prot, unprot, rh):
                 d.pop(param, None)
             tgt[param] = copy.deepcopy(value)
+            if cell.get("shadow"):
+                {"protected": prot, "unprotected": unprot, "recipient": rh}[cell["shadow"]][param] = copy.deepcopy(WELL[param])
     else:
         if param in ("alg", "enc"):
             prot.pop(param, None)
@@ -386,6 +391,32 @@ def all_cells():
                                     continue
                                 cells.append({"op": op, "alg": alg, "pos": pos, "param": param, "vname": vname, "value": value,
                                               "present": present, "strict": strict, "caller": caller})
+    # 'shadow' cells: a mistyped registered parameter in one position, a well-typed one of the same name in another
+    bad = [v for v in VALUES if v[0] in ("int", "null", "list-int", "dict-empty", "true")]
+    for op in JWS_OPS:
+        if "json" not in op:
+            continue
+        for pos, shadow in (("protected", "unprotected"), ("unprotected", "protected")):
+            for param in WELL:
+                for vname, value in bad:
+                    if param == "x5c" and vname == "list-int":
+                        pass
+                    for strict in (True, False):
+                        cells.append({"op": op, "pos": pos, "shadow": shadow, "param": param, "vname": vname, "value": value, "present": True,
+                                      "strict": strict, "caller": "none"})
+    for op in JWE_OPS:
+        if "json" not in op:
+            continue
+        for alg in ("A128KW", "ECDH-ES"):
+            for pos in ("protected", "unprotected", "recipient"):
+                for shadow in ("protected", "unprotected", "recipient"):
+                    if pos == shadow:
+                        continue
+                    for param in ("kid", "typ"):
+                        for vname, value in bad:
+                            for strict in (True, False):
+                                cells.append({"op": op, "alg": alg, "pos": pos, "shadow": shadow, "param": param, "vname": vname, "value": value,
+                                              "present": True, "strict": strict, "caller": "none"})
     return cells
 
 
@@ -407,6 +438,13 @@ def judge(cell, outcome, merged, family, direction, alg, r7797):
     if status == "skip":
         return None
     ok = header_ok(merged, family, direction, alg, cell["strict"], cell["caller"], r7797)
+    if cell.get("shadow"):
+        # the JOSE header holds a registered parameter of the wrong type, whatever a second member of that name says
+        if status == "ok":
+            return ("%s:%s:accepted-shadowed-mistyped:%s<-%s" % (cell["op"], cell["param"], cell["pos"], cell["shadow"]),
+                    "%s=%r in the %s header was accepted because the %s header carries a well-typed member of the same name (strict=%s)" % (
+                        cell["param"], cell["value"], cell["pos"], cell["shadow"], cell["strict"]))
+        return None
     if ok is None:
         return ("dontcare", "")
     where = "%s:%s:%s=%s" % (cell["op"], cell["pos"], cell["param"], cell["vname"])
@@ -436,7 +474,9 @@ def run(rng: Rng, tier: str, index: int) -> RunResult:
         v = judge(cell, outcome, merged, family, direction, alg, r7797)
         res.case(json.dumps({k: cell[k] for k in cell if k != "value"}, sort_keys=True))
         res.fired("%s:%s" % (direction, "bad-type" if cell["present"] else "missing"))
-        tr.add(cell["op"], cell.get("alg"), cell["pos"], cell["param"], cell["vname"], cell["strict"], cell["caller"], outcome[0])
+        tr.add(cell["op"], cell.get("alg"), cell["pos"], cell.get("shadow"), cell["param"], cell["vname"], cell["strict"], cell["caller"], outcome[0])
+        if cell.get("shadow"):
+            res.fired("%s:shadowed-mistyped" % direction)
         if len(res.samples) < 3:
             res.sample({"cell": {k: cell[k] for k in cell if k != "value"}, "value": cell["value"], "outcome": outcome[0]})
         if v is None:
